@@ -106,6 +106,7 @@ func profiles() map[string]Profile {
 	p.Snap, p.SnapClose, p.Visit, p.RefCheck, p.NVisit, p.SetColl, p.RmColl, p.Len = 5, 4, 8, 10, 2, 2, 2, 2
 	p.Flush, p.Evict, p.Reopen, p.Drop = 8, 8, 5, 0
 	p.CloseAll, p.NoGet, p.Get, p.GetI = true, true, 0, 12
+	p.BadNames = true // a refused Flush (a collection name JSON cannot carry) must not keep anything pinned
 	p.Cfg = func(r *rand.Rand) int { return cbRefs | cbItemAlloc | (r.Intn(256) &^ cbValLength) }
 	m["C15"] = p
 
